@@ -56,6 +56,21 @@ CLAIMED = {
         "a name->session reference in the generator checks the implementation directly.",
    ref="4/C12", technique="Coq proof (refinement to a finite map, invariant over runs) + differential correspondence",
    note="Trusted: Coq kernel; partial: shutdown_all closes concurrently (join_all) - order canonicalised to a set."),
+ "C04": dict(
+   text="Coq theorems about the parser model (line-at-a-time state machine): C04_no_panic (no panic for any text whose duration words do not make humantime itself panic; "
+        "C04_panic_refuted exhibits the witness = known finding D13), C04_line_bound (error line in [1, n+1]), C04_line_status_uniform, C04_reject_at_boundary (a rejected line at any record boundary is "
+        "reported at that very line), C04_strict (a line is accepted iff its words form a documented directive: equivalence with the declarative grammar HeaderSpec.valid_header), "
+        "C04_statement_results_rejected, C04_duplicated_error_rejected. Correspondence: all header lines of <=3 (quick) / <=4 (thorough) tokens over a 16-word vocabulary, sampled longer ones, "
+        "mutated valid headers, a catalogue of malformed lines injected at every record boundary of generated scripts, arbitrary Unicode text and fixture mutations; both column types.",
+   ref="4/C04", technique="Coq proof (state-machine invariant, grammar equivalence) + exhaustive/differential correspondence vs sqllogictest::parse",
+   note="Trusted: Coq kernel; Regex::new validity is an oracle; humantime's duration grammar modelled and validated; inputs of >= 2^32-1 lines out of scope. Known finding D13 (dependency panic) listed in known_findings.jsonl."),
+ "C14": dict(
+   text="Coq theorems C14_expand_sound / C14_expand_complete (the model of parse_file_inner computes exactly the declarative splice: matching files in glob order, bracketed, directly after the include record, recursively), "
+        "C14_fuel_irrelevant, C14_markers_nested (Dyck), C14_provenance (file and include-site chain of every located record), C14_missing_file_is_located_error, C14_empty_match_is_located_error, C14_parser_locations. "
+        "Correspondence: random directory trees (depth <=4, patterns with * ? .. sub-directories, empty matches, missing files, directories and non-UTF-8 files matching a pattern, halts and parse errors in included files) "
+        "through parse_file and run_file, with direct checks of nesting, provenance, ascending order and execution order on the implementation.",
+   ref="4/C14", technique="Coq proof (mutual induction over the splice relation, fuel monotonicity) + differential correspondence on real directory trees",
+   note="Trusted: Coq kernel; glob::glob and the file system are oracles recorded by the harness for every reachable pattern/path; cyclic includes out of scope. Defect D15 (panic on unreadable match) fixed in /repo."),
 }
 
 PENDING = "check not built yet in this session (machinery under construction); no claim is made"
